@@ -1,5 +1,6 @@
 import C2paModel.Lemmas.C34Inst
 import C2paModel.Lemmas.C34Total
+import C2paModel.Lemmas.C34Gen
 /-
 C34 — property theorems. The statement (properties.jsonl):
 
@@ -15,7 +16,8 @@ hypothesis-free statements are kept as `def … : Prop` and refuted with concret
 where the code falsifies them.
 
 Lemma files: Lemmas/C34.lean (split/join, decimal), C34Uri.lean (URI normal forms),
-C34Parts.lean (label shapes), C34Inst.lean (instance suffixes), C34Total.lean (no panic).
+C34Parts.lean (label shapes), C34Inst.lean (instance suffixes), C34Total.lean (no panic),
+C34Gen.lean (labels of new claims, the parse-first direction, lower-casing).
 -/
 set_option linter.unusedSimpArgs false
 namespace C2pa.C34
@@ -155,6 +157,243 @@ theorem parts_roundtrip_uri_partial (p : Parts) (h : WFU p = true) (tail : List 
   have hwf : WF p = true := by simp [WFU] at h; exact h.1.1
   rw [parts_of_uri (mlabel_abs hok ht) (mlabel_noSlash hok.1)]
   exact parts_roundtrip_partial p hwf
+
+/-! ## 1b. label → parts → label → parts (labels read from files; conflict relabelling)
+
+`Store` relabels a conflicting ingredient manifest with
+`manifest_label_to_parts(label)? ; version := …; reason := 1; to_string()` — the label comes
+from a file and was not written by `Display`. -/
+
+/-- The parse-first statement without hypothesis. -/
+def PartsDisplayIdempotentFull : Prop :=
+  ∀ (s : Str) (p : Parts), manifestLabelToParts s = some (some p) →
+    manifestLabelToParts (display p) = some (some p)
+
+/-- **parts_display_idempotent_partial.** Whatever `manifest_label_to_parts` returns for a bare
+label (no `/`) or for a JUMBF URI that names a manifest is well-formed, so printing it and
+parsing it again gives the same parts — although the printed label may differ from the input
+(`+007` prints as `7`, a third `_` piece and empty trailing fields are dropped). -/
+theorem parts_display_idempotent_partial (s : Str) (p : Parts)
+    (hs : '/' ∉ s ∨ ∃ L, manifestLabelFromUri s = some (some L))
+    (h : manifestLabelToParts s = some (some p)) :
+    WF p = true ∧ manifestLabelToParts (display p) = some (some p) :=
+  ⟨parse_wf hs h, parts_roundtrip_partial p (parse_wf hs h)⟩
+
+/-- the hypothesis is met by labels `Display` never writes, and `Display` normalises them -/
+example : manifestLabelToParts "urn:c2pa:g:v:+007_2_9".toList
+      = some (some ⟨"g".toList, false, some "v".toList, some 7, some 2⟩)
+    ∧ display ⟨"g".toList, false, some "v".toList, some 7, some 2⟩ = "urn:c2pa:g:v:7_2".toList
+    ∧ manifestLabelToParts "urn:c2pa:g::".toList = some (some ⟨"g".toList, false, none, none, none⟩)
+    ∧ manifestLabelToParts "urn:uuid:g:any:thing".toList = some (some ⟨"g".toList, true, none, none, none⟩)
+    ∧ manifestLabelToParts "self#jumbf=/c2pa/urn:c2pa:g:v:3/c2pa.signature".toList
+      = some (some ⟨"g".toList, false, some "v".toList, some 3, none⟩) := by decide
+
+/-- Witness: a string with `/` that is not a manifest URI only because of a trailing `=`;
+the trailing piece is dropped by `Display`, and what is printed *is* a manifest URI. -/
+theorem parts_display_idempotent_witness :
+    manifestLabelToParts "urn:uuid:a/c2pa/b:t=q".toList
+      = some (some ⟨"a/c2pa/b".toList, true, none, none, none⟩)
+    ∧ manifestLabelToParts (display ⟨"a/c2pa/b".toList, true, none, none, none⟩) = some none := by
+  decide
+
+theorem parts_display_idempotent_false : ¬ PartsDisplayIdempotentFull := by
+  intro h
+  have h1 := h _ _ parts_display_idempotent_witness.1
+  rw [parts_display_idempotent_witness.2] at h1
+  exact absurd h1 (by decide)
+
+theorem wf_relabel {p : Parts} (h : WF p = true) (hv2 : p.isV1 = false) {nv : Nat}
+    (hn : nv < usizeLimit) : WF (relabelParts p nv) = true := by
+  obtain ⟨g, v1, cgi, ver, rsn⟩ := p
+  simp only at hv2
+  subst hv2
+  have h1 : (1 : Nat) < usizeLimit := by decide
+  cases cgi <;> simp [WF, relabelParts, optLt, hn, h1] at h ⊢ <;> simp [h]
+
+/-- **relabel_roundtrip_partial.** The relabelling step on a 2.x label read from a file (bare,
+or a manifest URI): it succeeds, and the new label parses to the old parts with the new
+version and reason 1. -/
+theorem relabel_roundtrip_partial (s : Str) (p : Parts) (nv : Nat)
+    (hs : '/' ∉ s ∨ ∃ L, manifestLabelFromUri s = some (some L))
+    (h : manifestLabelToParts s = some (some p)) (hv2 : p.isV1 = false) (hn : nv < usizeLimit) :
+    conflictRelabel s nv = some (some (display (relabelParts p nv)))
+    ∧ manifestLabelToParts (display (relabelParts p nv)) = some (some (relabelParts p nv)) := by
+  refine ⟨by simp [conflictRelabel, h], ?_⟩
+  exact parts_roundtrip_partial _ (wf_relabel (parse_wf hs h) hv2 hn)
+
+example : conflictRelabel "urn:c2pa:3fad1ead-8ed5-44d0-873b-ea5f58adea82:acme".toList 2
+    = some (some "urn:c2pa:3fad1ead-8ed5-44d0-873b-ea5f58adea82:acme:2_1".toList) := by decide
+
+/-- The new label differs from every label whose version is not the new version (the store
+takes the new version above all versions in use). -/
+theorem relabel_fresh (s : Str) (p : Parts) (nv : Nat)
+    (hs : '/' ∉ s ∨ ∃ L, manifestLabelFromUri s = some (some L))
+    (h : manifestLabelToParts s = some (some p)) (hv2 : p.isV1 = false) (hn : nv < usizeLimit)
+    (k : Str) (q : Parts) (hk : manifestLabelToParts k = some (some q)) (hq : q.version ≠ some nv) :
+    k ≠ display (relabelParts p nv) := by
+  rintro rfl
+  rw [(relabel_roundtrip_partial s p nv hs h hv2 hn).2] at hk
+  injection hk with hk
+  injection hk with hk
+  subst hk
+  exact hq rfl
+
+/-- The statement "the relabelled label is a new label" for all labels the parser accepts. -/
+def RelabelChangesLabelFull : Prop :=
+  ∀ (s : Str) (p : Parts) (nv : Nat), manifestLabelToParts s = some (some p) →
+    conflictRelabel s nv ≠ some (some (display p))
+
+/-- A 1.x label cannot carry version and reason: `Display` drops them, the "new" label is
+the old one. -/
+theorem relabel_v1_unchanged (p : Parts) (nv : Nat) (h : p.isV1 = true) :
+    display (relabelParts p nv) = display p := by
+  simp [display, relabelParts, h]
+
+theorem relabel_v1_witness :
+    manifestLabelToParts "urn:uuid:g".toList = some (some ⟨"g".toList, true, none, none, none⟩)
+    ∧ conflictRelabel "urn:uuid:g".toList 2 = some (some "urn:uuid:g".toList) := by decide
+
+theorem relabel_changes_label_full_false : ¬ RelabelChangesLabelFull := by
+  intro h
+  exact h _ _ 2 relabel_v1_witness.1 (by decide)
+
+/-! ## 1c. labels of new claims (`Claim::new`, `Builder::to_claim`) -/
+
+/-- `Claim::new` writes exactly what `Display` writes for (GUID, lower-cased vendor). -/
+theorem newLabel_is_display (g : Str) (vendor : Option Str) (v1 : Bool) :
+    newLabel g vendor v1 = display ⟨g, v1, vendor.map lowerAscii, none, none⟩ :=
+  newLabel_eq_display g vendor v1
+
+/-- The round trip for `Claim::new` without a hypothesis on the vendor. -/
+def NewLabelRoundtripFull : Prop :=
+  ∀ (g : Str) (vendor : Option Str) (v1 : Bool), (∀ c ∈ g, uuidChar c = true) →
+    manifestLabelToParts (newLabel g vendor v1) = some (some ⟨g, v1, vendor.map lowerAscii, none, none⟩)
+
+/-- Witnesses: `Claim::new` only lower-cases the vendor. A vendor with `:`, with a space, or
+longer than 32 characters gives a 2.x label the parser rejects; with `/` a label that is cut
+when it is placed into a URI; with `:` a 1.x label the parser rejects; an empty vendor is
+read back as "no vendor". -/
+theorem newLabel_witness :
+    manifestLabelToParts (newLabel "3fad1ead-8ed5-44d0-873b-ea5f58adea82".toList (some "a:b".toList) false) = some none
+    ∧ manifestLabelToParts (newLabel "3fad1ead-8ed5-44d0-873b-ea5f58adea82".toList (some "My Vendor".toList) false) = some none
+    ∧ manifestLabelToParts (newLabel "3fad1ead-8ed5-44d0-873b-ea5f58adea82".toList
+        (some "abcdefghijklmnopqrstuvwxyz0123456".toList) false) = some none
+    ∧ manifestLabelFromUri (toManifestUri (newLabel "3fad1ead-8ed5-44d0-873b-ea5f58adea82".toList (some "a/b".toList) false))
+      = some (some "urn:c2pa:3fad1ead-8ed5-44d0-873b-ea5f58adea82:a".toList)
+    ∧ manifestLabelToParts (newLabel "3fad1ead-8ed5-44d0-873b-ea5f58adea82".toList (some "a:b".toList) true) = some none
+    ∧ manifestLabelToParts (newLabel "3fad1ead-8ed5-44d0-873b-ea5f58adea82".toList (some []) false)
+      = some (some ⟨"3fad1ead-8ed5-44d0-873b-ea5f58adea82".toList, false, none, none, none⟩) := by
+  decide
+
+theorem newLabel_roundtrip_full_false : ¬ NewLabelRoundtripFull := by
+  intro h
+  have h1 := h "3fad1ead-8ed5-44d0-873b-ea5f58adea82".toList (some "a:b".toList) false (by decide)
+  rw [newLabel_witness.1] at h1
+  exact absurd h1 (by decide)
+
+/-- **builder_label_roundtrip.** Every label the SDK generates through its public entry
+(`Builder::to_claim`, which refuses a vendor failing `is_valid_vendor`; the GUID is a fresh
+UUID): it is what `Display` prints for (GUID, lower-cased vendor); these parts are well-formed
+and `=`-free; the label parses back to them; and it is a legal URI segment, so every theorem of
+§1–§4 applies to it. No hypothesis on the vendor beyond the Builder having accepted it. -/
+theorem builder_label_roundtrip (g : Str) (vendor : Option Str) (v1 : Bool) (L : Str)
+    (hg : ∀ c ∈ g, uuidChar c = true) (h : builderLabel g vendor v1 = some L) :
+    L = display ⟨g, v1, vendor.map lowerAscii, none, none⟩
+    ∧ WFU ⟨g, v1, vendor.map lowerAscii, none, none⟩ = true
+    ∧ manifestLabelToParts L = some (some ⟨g, v1, vendor.map lowerAscii, none, none⟩)
+    ∧ okSeg L := by
+  have hgc := uuid_clean g hg
+  have hL : L = display ⟨g, v1, vendor.map lowerAscii, none, none⟩ := by
+    cases vendor with
+    | none => simp [builderLabel] at h; rw [← h]; exact newLabel_eq_display g none v1
+    | some v =>
+      simp only [builderLabel] at h
+      split at h
+      · injection h with h; rw [← h]; exact newLabel_eq_display g (some v) v1
+      · exact absurd h (by simp)
+  have hW : WFU ⟨g, v1, vendor.map lowerAscii, none, none⟩ = true := by
+    cases vendor with
+    | none => cases v1 <;> simp [WFU, WF, hgc.1, hgc.2.2, optLt]
+    | some v =>
+      have hok : vendorOk v = true := by
+        simp only [builderLabel] at h
+        split at h
+        · assumption
+        · exact absurd h (by simp)
+      obtain ⟨l1, l2, l3, l4, l5, l6⟩ := vendorOk_lower hok
+      have hcl : clean (lowerAscii v) = true := clean_iff.mpr ⟨l4, l5⟩
+      have hvb := vendorBad_visible l1 l2 l3
+      have hne : (lowerAscii v).isEmpty = false := by
+        cases hh : lowerAscii v with
+        | nil => exact absurd hh l1
+        | cons _ _ => rfl
+      cases v1 <;> simp [WFU, WF, hgc.1, hgc.2.2, optLt, hcl, hvb, hne, l6]
+  refine ⟨hL, hW, ?_, ?_⟩
+  · rw [hL]
+    exact parts_roundtrip_partial _ (by simp [WFU] at hW; exact hW.1.1)
+  · rw [hL]
+    exact display_okSeg _ hW
+
+/-- the hypotheses are met: a mixed-case vendor with punctuation, 1.x and 2.x, and no vendor -/
+example : builderLabel "3fad1ead-8ed5-44d0-873b-ea5f58adea82".toList (some "Camera+App".toList) false
+    = some "urn:c2pa:3fad1ead-8ed5-44d0-873b-ea5f58adea82:camera+app".toList := by decide
+example : builderLabel "3fad1ead-8ed5-44d0-873b-ea5f58adea82".toList (some "URN".toList) true
+    = some "urn:urn:uuid:3fad1ead-8ed5-44d0-873b-ea5f58adea82".toList := by decide
+example : builderLabel "3fad1ead-8ed5-44d0-873b-ea5f58adea82".toList none true
+    = some "urn:uuid:3fad1ead-8ed5-44d0-873b-ea5f58adea82".toList := by decide
+/-- …and the vendors of `newLabel_witness` are refused -/
+example : builderLabel [] (some "a:b".toList) false = none
+    ∧ builderLabel [] (some "My Vendor".toList) false = none
+    ∧ builderLabel [] (some "abcdefghijklmnopqrstuvwxyz0123456".toList) true = none
+    ∧ builderLabel [] (some "a/b".toList) false = none
+    ∧ builderLabel [] (some "a=b".toList) false = none
+    ∧ builderLabel [] (some "caf\u00e9".toList) false = none
+    ∧ builderLabel [] (some []) false = none := by decide
+
+/-- The Builder refuses exactly the vendors failing `is_valid_vendor`: empty, longer than 32
+bytes, or containing a character that is not printable ASCII, a space, `:`, `/` or `=`. -/
+theorem builder_label_refused_iff (g v : Str) (v1 : Bool) :
+    builderLabel g (some v) v1 = none ↔
+      (v = [] ∨ 32 < utf8Len v ∨ ∃ c ∈ v, visible c = false ∨ c = ':' ∨ c = '/' ∨ c = '=') := by
+  have hiff := vendorOk_iff (v := v)
+  constructor
+  · intro h
+    have hno : vendorOk v ≠ true := by
+      intro hok
+      simp [builderLabel, hok] at h
+    by_cases h1 : v = []
+    · exact Or.inl h1
+    · by_cases h2 : 32 < utf8Len v
+      · exact Or.inr (Or.inl h2)
+      · right; right
+        apply Classical.byContradiction
+        intro hne
+        apply hno
+        apply hiff.mpr
+        refine ⟨h1, by omega, fun c hc => ?_⟩
+        refine ⟨?_, ?_, ?_, ?_⟩
+        · cases hvv : visible c with
+          | true => rfl
+          | false => exact absurd ⟨c, hc, Or.inl hvv⟩ hne
+        · intro e; exact hne ⟨c, hc, Or.inr (Or.inl e)⟩
+        · intro e; exact hne ⟨c, hc, Or.inr (Or.inr (Or.inl e))⟩
+        · intro e; exact hne ⟨c, hc, Or.inr (Or.inr (Or.inr e))⟩
+  · intro h
+    have hno : vendorOk v = false := by
+      cases hok : vendorOk v with
+      | false => rfl
+      | true =>
+        obtain ⟨h1, h2, h3⟩ := hiff.mp hok
+        rcases h with h | h | ⟨c, hc, h⟩
+        · exact absurd h h1
+        · omega
+        · have := h3 c hc
+          rcases h with h | h | h | h
+          · rw [this.1] at h; exact absurd h (by simp)
+          · exact absurd h this.2.1
+          · exact absurd h this.2.2.1
+          · exact absurd h this.2.2.2
+    simp [builderLabel, hno]
 
 /-! ## 2. URI builders → readers -/
 
@@ -328,6 +567,38 @@ theorem instance_roundtrip_full_false : ¬ InstanceRoundtripFull := by
   have h1 := h "a_".toList 5 (by decide)
   rw [instance_witness] at h1
   exact absurd h1 (by decide)
+
+/-- Witness (review): an ingredient-thumbnail label whose format suffix is not lower case.
+`label_with_instance(l, 0)` returns `l` unchanged, `assertion_label_from_link` lower-cases. -/
+theorem instance_case_witness :
+    (labelWithInstance (cIngThumb ++ ".JPEG".toList) 0).bind labelAndInstance
+      ≠ some (cIngThumb ++ ".JPEG".toList, 0) := by decide
+
+/-- **instance_roundtrip_normalised.** For an ingredient-thumbnail label with a format suffix of
+*any* case (no `_`, `.`, `/`, `=`) the pair read back is the label with the suffix lower-cased
+— the form `Assertion::label()` writes into the assertion box — and the same instance. -/
+theorem instance_roundtrip_normalised (f : Str) (n : Nat) (hf : fmtAny f = true) (hn : n < usizeLimit) :
+    (labelWithInstance (cIngThumb ++ '.' :: f) n).bind labelAndInstance
+      = some (cIngThumb ++ '.' :: lowerAscii f, n) := by
+  by_cases h0 : n = 0
+  · subst h0
+    simp [lwi_plain_zero, ing_any_zero hf]
+  · simp [lwi_ing_any_pos hf h0, ing_fmt_pos (fmtOk_lower hf) hn]
+
+/-- …so the exact round trip holds **iff** the suffix is lower case: the `fmtOk` hypothesis of
+`instance_roundtrip_partial` is necessary, not only sufficient. -/
+theorem instance_roundtrip_iff_lower (f : Str) (n : Nat) (hf : fmtAny f = true) (hn : n < usizeLimit) :
+    (labelWithInstance (cIngThumb ++ '.' :: f) n).bind labelAndInstance
+      = some (cIngThumb ++ '.' :: f, n) ↔ lowerAscii f = f := by
+  rw [instance_roundtrip_normalised f n hf hn]
+  constructor
+  · intro h
+    injection h with h
+    injection h with h1 _
+    exact (List.cons.inj (List.append_cancel_left h1)).2
+  · intro h; rw [h]
+
+example : fmtAny "JPEG".toList = true ∧ lowerAscii "JPEG".toList = "jpeg".toList := by decide
 
 /-! ## 5. no panic -/
 
